@@ -11,7 +11,7 @@ let ribop_of (fields : string list) : ribop option =
   | ["reg"; nm; f; o; c; fl] ->
       Some (Reg (name_of_string nm, { r_face = n_of_dec f; r_origin = n_of_dec o; r_cost = n_of_dec c; r_flags = n_of_dec fl }))
   | ["unreg"; nm; f; o] -> Some (Unreg (name_of_string nm, n_of_dec f, n_of_dec o))
-  | ["cleanup"; f] -> Some (Cleanup (n_of_dec f))
+  | ["cleanup"; f] | ["cleanup"; f; _] -> Some (Cleanup (n_of_dec f))   (* destroyed by management, or the transport closed *)
   | _ -> None
 
 (* Go iterates the min-cost map in arbitrary order; the runner uses the identity and compares next hops as sets *)
